@@ -197,6 +197,7 @@ type agg struct {
 	faults, probes      map[string]int
 	foreign             map[string]int
 	families, kinds     map[string]int
+	nodeTypes, funcs    map[string]int
 	strategies          map[string]int
 	tasksHist           map[string]int
 	schedSigs           map[string]bool
@@ -223,7 +224,7 @@ type hit struct {
 func newAgg() *agg {
 	return &agg{faults: map[string]int{}, probes: map[string]int{}, foreign: map[string]int{}, families: map[string]int{},
 		kinds: map[string]int{}, strategies: map[string]int{}, tasksHist: map[string]int{}, schedSigs: map[string]bool{},
-		nontrivial: map[string]bool{}, hashes: map[string]bool{}}
+		nontrivial: map[string]bool{}, hashes: map[string]bool{}, nodeTypes: map[string]int{}, funcs: map[string]int{}}
 }
 
 func (a *agg) add(p string, r *run.Result, spec func() *run.Spec) {
@@ -250,6 +251,12 @@ func (a *agg) add(p string, r *run.Result, spec func() *run.Spec) {
 	}
 	for k, v := range r.Families {
 		a.families[k] += v
+	}
+	for k, v := range r.NodeTypes {
+		a.nodeTypes[strings.TrimPrefix(k, "*jparse.")] += v
+	}
+	for k, v := range r.Funcs {
+		a.funcs[k] += v
 	}
 	a.schedSigs[r.SchedSig] = true
 	a.hashes[r.EventHash] = true
@@ -486,6 +493,18 @@ func doCheck(cfg propCfg) int {
 			fmt.Printf("UNCONFIRMED property=%s class=%s key=%q seed=%d: did not reproduce alone in a fresh process (not reported)\n", *prop, h.v.Class, h.v.Key, h.res.Seed)
 			continue
 		}
+		if *prop == "C06" && got.Class == "isolation" {
+			// Is it the schedule, or does the same call already differ from
+			// its reference when the tasks run one after the other? The
+			// latter is history dependence: C05's matter, reported there.
+			seq := cloneSpec(spec)
+			seq.Switches = nonNilSwitches()
+			if sres, _ := runSpec(cfg, seq); sameViolation(sres, *got, false) != nil {
+				a.confounded++
+				fmt.Printf("CONFOUNDED property=C06 class=isolation key=%q seed=%d: the outcome also differs from the reference when the tasks run sequentially (history dependence, decided by C05); not reported under C06\n", got.Key, h.res.Seed)
+				continue
+			}
+		}
 		if !*noMin {
 			spec, got, res = minimise(cfg, spec, *got, res)
 		}
@@ -571,11 +590,16 @@ func doCheck(cfg propCfg) int {
 		"linearizable":         a.linearized,
 		"inconclusive":         a.inconclusive,
 		"unconfirmed":          unconfirmed,
+		"skipped_confounded":   a.confounded,
 		"foreign_observations": a.foreign,
 		"kinds":                a.kinds,
 		"strategies":           a.strategies,
 		"tasks_per_run":        a.tasksHist,
 		"families":             a.families,
+		"node_types_evaluated": a.nodeTypes,
+		"functions_called":     a.funcs,
+		"node_types_never":     missing(allNodeTypes, a.nodeTypes),
+		"builtins_never":       missing(allBuiltins, a.funcs),
 		"workers":              *workers,
 		"explore_wall_s":       exploreWall,
 		"real_components":      []string{"jsonata (Compile, Eval, EvalBytes, registries, evaluator, callables)", "jparse", "jlib", "jlib/jxpath", "jtypes", "Go runtime maps/reflect/encoding/json/regexp"},
@@ -599,6 +623,31 @@ func doCheck(cfg propCfg) int {
 		*prop, *tier, a.runs, a.ops, len(a.nontrivial), a.raceReports, len(outcomes), len(observed), exit, wall)
 	os.RemoveAll(scratch)
 	return exit
+}
+
+// The complete lists are only used to REPORT reach (which node types and
+// built-ins a run never visited); no oracle depends on them.
+var allNodeTypes = []string{"StringNode", "NumberNode", "BooleanNode", "NullNode", "RegexNode", "VariableNode", "NameNode", "PathNode",
+	"NegationNode", "RangeNode", "ArrayNode", "ObjectNode", "BlockNode", "ConditionalNode", "AssignmentNode", "WildcardNode",
+	"DescendentNode", "GroupNode", "PredicateNode", "SortNode", "LambdaNode", "TypedLambdaNode", "ObjectTransformationNode",
+	"PartialNode", "FunctionCallNode", "FunctionApplicationNode", "NumericOperatorNode", "ComparisonOperatorNode",
+	"BooleanOperatorNode", "StringConcatenationNode"}
+
+var allBuiltins = []string{"string", "length", "substring", "substringBefore", "substringAfter", "uppercase", "lowercase", "pad", "trim",
+	"contains", "split", "join", "match", "replace", "formatNumber", "formatBase", "base64encode", "base64decode", "decodeUrl",
+	"decodeUrlComponent", "encodeUrl", "encodeUrlComponent", "number", "abs", "floor", "ceil", "round", "power", "sqrt", "random",
+	"sum", "max", "min", "average", "boolean", "not", "exists", "distinct", "count", "reverse", "sort", "shuffle", "zip", "append",
+	"map", "filter", "reduce", "single", "each", "sift", "keys", "lookup", "spread", "merge", "fromMillis", "toMillis", "type",
+	"error", "millis", "now"}
+
+func missing(all []string, seen map[string]int) []string {
+	out := []string{}
+	for _, n := range all {
+		if seen[n] == 0 {
+			out = append(out, n)
+		}
+	}
+	return out
 }
 
 func stubs(cfg propCfg) []string {
